@@ -209,6 +209,21 @@ def ref_mismatches(res, case, bins=None):
     return list(A.check_result_against_ref(res, x1, x2, int(case["opts"]["order"]), win, psll, case["fs"], bins=bins))
 
 
+class _Lazy(dict):
+    """replay record that also carries the analysis run just before (dumped only if a violation is actually stored)"""
+
+    def __init__(self, d, prev):
+        super().__init__(d)
+        self._prev = prev
+
+    def final(self) -> Dict[str, Any]:
+        return dict(self, prev=dump_case(self._prev))
+
+
+def _rp(rp) -> Dict[str, Any]:
+    return rp.final() if isinstance(rp, _Lazy) else rp
+
+
 def lengths_ok(res, nf: int) -> Optional[str]:
     for k in PLAN_FIELDS + COMP_FIELDS + ("D",):
         try:
@@ -220,9 +235,15 @@ def lengths_ok(res, nf: int) -> Optional[str]:
     return None
 
 
+_LAST: List[Any] = [None]      # the analysis that ran before the current one in this process (kept for replays: process-level state)
+
+
 def run_full(P: C.Part, case, an=None, via: str = "class", tag: str = "full", replay: Optional[Dict[str, Any]] = None):
     """sub-claims 1, 2: every bin of a full analysis equals the reference evaluated from the result's own f, L, D. Returns (analyzer, result)."""
+    prev, _LAST[0] = _LAST[0], case
     rp = replay if replay is not None else {"kind": "full", "case": dump_case(case), "via": via}
+    if replay is None and prev is not None and prev is not case:
+        rp = _Lazy(rp, prev)
     try:
         if an is None:
             an = make_analyzer(case)
@@ -241,12 +262,12 @@ def run_full(P: C.Part, case, an=None, via: str = "class", tag: str = "full", re
             res = getattr(speckit, via)(data_arg(case), case["fs"], **real_kwargs(case))
     except Exception as ex:
         P.violations.append(C.Violation(what=f"analysis raised {ex!r} although its plan is valid: {brief(case)}",
-                                        signature=sig(case, tag, raises=True), replay=rp))
+                                        signature=sig(case, tag, raises=True), replay=_rp(rp)))
         return an, None
     nf = len(res.f)
     msg = lengths_ok(res, nf)
     if msg:
-        P.violations.append(C.Violation(what=f"{msg}: {brief(case)}", signature=sig(case, tag, field="length"), replay=rp))
+        P.violations.append(C.Violation(what=f"{msg}: {brief(case)}", signature=sig(case, tag, field="length"), replay=_rp(rp)))
         return an, None
     Ls = np.asarray(res.L)
     Ks = [len(d) for d in res.D]
@@ -275,7 +296,7 @@ def run_full(P: C.Part, case, an=None, via: str = "class", tag: str = "full", re
         P.violations.append(C.Violation(
             what=(f"bin {j} of {nf}: {k} = {ob!r} but the reference estimator at the result's own f={float(res.f[j])!r}, L={int(Ls[j])}, "
                   f"K={Ks[j]} gives {ex!r} (tol {tol:.3g}; {len(bad)} field(s) off in this analysis): {brief(case)}"),
-            signature=sig(case, tag, field=k), replay=dict(rp, bin=int(j), field=k, observed=ob, expected=ex, tol=tol)))
+            signature=sig(case, tag, field=k), replay=dict(_rp(rp), bin=int(j), field=k, observed=ob, expected=ex, tol=tol)))
     return an, res
 
 
@@ -510,8 +531,9 @@ def one_round(P: C.Part, rng: np.random.Generator, i: int, edge: bool, n_single:
 def oracle(ctx, intensive: bool = False, hints: List[Dict[str, Any]] = ()) -> C.Part:
     P = C.Part()
     rng = ctx.rng
-    n = ctx.scale(36, 420) * (4 if intensive else 1)
-    reserve = 15
+    n = ctx.scale(56, 600) * (4 if intensive else 1)
+    # quick tier: the intensive search is additionally capped at ~150 s so that a failing check still ends within minutes
+    reserve = 15.0 if (ctx.thorough or not intensive) else max(15.0, float(ctx.budget_s) - 150.0)
     # the inputs on which the model and the implementation disagreed come first
     for h in list(hints)[:8]:
         if not isinstance(h, dict):
@@ -529,6 +551,11 @@ def oracle(ctx, intensive: bool = False, hints: List[Dict[str, Any]] = ()) -> C.
                 case = gen_case(rng, 0, small=True)
                 case = dict(case, data=A.record(rng, N, "noise"), layout="1d", opts=dict(case["opts"], winkind="kaiser", psll=float(h["psll"])))
                 run_single(P, case, None, {"freq": 0.2 * case["fs"], "L": int(h["L"]), "via": "method"}, tag="hint-single")
+            elif h.get("op") == "fres":
+                case = gen_case(rng, 0, small=True)
+                case = dict(case, data=A.record(rng, int(h["N"]), "noise"), layout="1d", fs=float(h["fs"]), opts=dict(case["opts"], winkind="hann"))
+                case["opts"].pop("psll", None)
+                run_single(P, case, None, {"freq": 0.2 * case["fs"], "fres": float(h["fres"]), "via": "method"}, tag="hint-single")
         except Exception as ex:  # a hint that cannot be turned into a case is not an error of the check
             P.notes.append(f"hint not replayable: {ex!r}"[:200])
     for i in range(n):
@@ -661,10 +688,10 @@ def correspondence(ctx) -> C.Part:
     from scipy.signal.windows import kaiser as sp_kaiser
 
     # (a1) Kaiser window of single-bin requests: model series vs the window handed to the kernel, and the stored sums
-    n_k = ctx.scale(70, 700)
+    n_k = ctx.scale(120, 1000)
     for t in range(n_k):
-        if ctx.time_left() < 60:
-            P.notes.append("time budget reached in kaiser/single-bin")
+        if ctx.time_left() < 60 or len(P.disagreements) >= 25:
+            P.notes.append("stopped early in kaiser/single-bin (time budget or 25 disagreements)")
             break
         L = int(rng.choice([1, 2, 3, 4, 5, 6, 7, 8])) if t % 5 == 0 else int(rng.integers(9, 401))
         psll = float(rng.choice([40.0, 200.0, 100.0])) if t % 4 == 0 else float(rng.uniform(40, 200))
@@ -698,10 +725,10 @@ def correspondence(ctx) -> C.Part:
                       "model_wmid": float(wm[L // 2]) if L else None})
 
     # (a2) full analyses with a Kaiser window: per bin, the tapped kernel arguments vs the model window / the result's own plan
-    n_f = ctx.scale(6, 40)
+    n_f = ctx.scale(10, 50)
     for t in range(n_f):
-        if ctx.time_left() < 50:
-            P.notes.append("time budget reached in kaiser/full")
+        if ctx.time_left() < 50 or len(P.disagreements) >= 25:
+            P.notes.append("stopped early in kaiser/full (time budget or 25 disagreements)")
             break
         N = int(rng.integers(200, 700))
         o = A.options(rng, N)
@@ -733,17 +760,17 @@ def correspondence(ctx) -> C.Part:
             where = {"via": "compute", "N": N, "bin": j, "scheduler": o["scheduler"], "backend": o["backend"], "order": o["order"], "fs": fs}
             if c is not None:
                 om = 2.0 * np.pi * float(res.f[j]) / fs
-                if c["L"] != L or not np.array_equal(c["starts"], np.asarray(res.D[j])) or not abs(c["omega"] - om) <= 8 * U * abs(om):
+                if c["L"] != L or not np.array_equal(c["starts"], np.asarray(res.D[j])) or not abs(c["omega"] - om) <= 32 * U * abs(om):
                     P.disagreements.append(dict(where, op="kernel-args", what="kernel called with L/starts/omega other than the result's own plan",
                                                 L_call=c["L"], L_plan=L, omega_call=c["omega"], omega_plan=om, K_call=len(c["starts"]), K_plan=len(res.D[j])))
                     continue
             kaiser_compare(P, wm, L, psll, None if c is None else c["w"], float(res.S12[j]), float(res.S2[j]), where)
 
     # (b) single-bin segmentation: model starts vs reported D; (freq, fres): model round-to-even vs reported L
-    n_s = ctx.scale(150, 1500)
+    n_s = ctx.scale(300, 2500)
     for t in range(n_s):
-        if ctx.time_left() < 30:
-            P.notes.append("time budget reached in singlebin")
+        if ctx.time_left() < 30 or len(P.disagreements) >= 50:
+            P.notes.append("stopped early in singlebin (time budget or 50 disagreements)")
             break
         N, L, olap = gen_seg(rng, t)
         fs = float(rng.choice([1.0, 2.0, 48000.0]))
@@ -811,6 +838,8 @@ def replay(ctx, data) -> C.Part:
         case = load_case(rp["case"])
         kind = rp.get("kind")
         if kind == "full":
+            if "prev" in rp:                      # the analysis that preceded it in the original process (process-level state)
+                run_full(C.Part(), load_case(rp["prev"]))
             run_full(P, case, via=rp.get("via", "class"))
         elif kind == "single":
             run_single(P, case, None, rp["req"])
